@@ -109,6 +109,21 @@ def check_record(args):
         big = tot > 1e-12
         if np.abs(10 * np.log10(tot[big]) - g[..., 2][big]).max(initial=0) > 1e-6:
             out['mism'].append(dict(what='total-not-power-sum'))
+        # the same request objects used again with other directions (a user stepping through cuts changes .initial /
+        # .inc of his Angle objects): the second table is the field of the NEW directions
+        if rnd.random() < 0.5:
+            zen.initial, zen.inc = zen.initial + 11.5, zen.inc * 0.5
+            azi.initial, azi.inc = azi.initial - 23.0, azi.inc * 0.75
+            m.compute_far_field(zen, azi, **kw)
+            ff2 = m.far_field
+            z2, a2 = np.array(ff2.zen), np.array(ff2.azi)
+            bad2 = 0.0
+            for idx in np.ndindex(np.array(ff2.e_theta).shape):
+                a, b = geo.far_E(I, k, z2[idx], a2[idx])
+                bad2 = max(bad2, abs(np.array(ff2.e_theta)[idx] - a * fac), abs(np.array(ff2.e_phi)[idx] - b * fac))
+            out['n'] += int(np.array(ff2.e_theta).size)
+            if bad2 > 1e-9 * max(scale, bad2 * 1e-3):
+                out['mism'].append(dict(what='second-request-with-the-same-angle-objects', err=float(bad2 / scale)))
         # 360 degrees apart / zenith
         m.compute_far_field(Angle(0, 35, 3), Angle(17, 360, 2))
         g2 = np.array(m.far_field.gain)
